@@ -16,6 +16,10 @@ let model op args =
   | "db" -> (match decode_bytes (bytes_of_hex (a0 ())) with
              | Some (rest, v) -> "ok " ^ hex_of_bytes rest ^ " " ^ hex_of_bytes v
              | None -> "err")
+  | "dbb" -> (match decode_bytes (bytes_of_hex (a0 ())) with
+             | Some (rest, v) -> "ok " ^ hex_of_bytes rest ^ " " ^ hex_of_bytes v
+             | None -> "err")
+  | "ebp" -> hex_of_bytes (bytes_of_hex (a0 ()) @ encode_bytes (bytes_of_hex (List.nth args 1)))
   | "eu" -> hex_of_bytes (encode_uint (n_of_hex (a0 ())))
   | "eud" -> hex_of_bytes (encode_uint_desc (n_of_hex (a0 ())))
   | "ei" -> hex_of_bytes (encode_int (z_of_hex (a0 ())))
@@ -60,7 +64,7 @@ let () =
         let (args, res) = split [] rest in
         let impl = String.concat " " res in
         (* the bytes decoder's error kinds are collapsed to "err" *)
-        let impl = if op = "db" && String.length impl >= 3 && String.sub impl 0 3 = "err" then "err" else impl in
+        let impl = if (op = "db" || op = "dbb") && String.length impl >= 3 && String.sub impl 0 3 = "err" then "err" else impl in
         let m = (try model op args with e -> "model-exception " ^ Printexc.to_string e) in
         incr n;
         let cls = if String.length impl >= 3 && String.sub impl 0 3 = "err" then "err" else if impl = "panic" then "panic" else "ok" in
